@@ -84,7 +84,10 @@ def same_decisions(a, b):
     return pa[1] == pb[1]
 
 
-def self_bit_positions(nbits_groups):
+NGROUPS = 4
+
+
+def self_bit_positions(nbits_groups=NGROUPS):
     """bit positions that are MutateSelf decisions (group-level and room-level)"""
     pos = set()
     base = 2
